@@ -2,9 +2,9 @@ SPECIFICATION Spec
 CONSTANTS
   Creators = {"g1", "g2"}
   MaxPkgs = 3
-  ATOMIC = FALSE
+  ATOMIC = TRUE
   REGFIRST = TRUE
-  CHANNELNR = TRUE
+  CHANNELNR = FALSE
   MaxSends = 3
   PTRACK = TRUE
 INVARIANTS C12_DistinctIds C12_SetupSucceedsOnAck C12_RoutedToHeaderChannel C12_InOrder C12_NoCrossTalk C12_NoReuseAfterClose C12_AckReachesItsChannel C12_ConsecutiveNumbers
